@@ -26,11 +26,16 @@ func TestMain(m *testing.M) {
 // Op is one Indexer call. Keys and values are arbitrary byte strings ([]byte so that the case
 // survives JSON; the Indexer API takes Go strings, which may hold any bytes).
 type Op struct {
-	Kind string `json:"kind"` // add | del | delkey | delall | search | hasvalue | hasany | foreach
+	Kind string `json:"kind"` // add | addn | del | delkey | delall | search | hasvalue | hasany | foreach
 	Key  []byte `json:"key"`
 	Val  []byte `json:"val,omitempty"`
-	Stop int    `json:"stop,omitempty"` // foreach: callback returns false at the Stop-th pair (0 = never)
-	Idx  int    `json:"idx"`            // which of the two sibling indexes on the shared datastore
+	// addn: N Add calls in a row. The i-th (1..N) adds (Key, Val+suffix(i)), or with Spread
+	// (Key+suffix(i), Val); suffix(i) is i in big-endian bytes without leading zeros, so the
+	// generated strings are themselves prefix-related ({1} and {1,0}).
+	N      int  `json:"n,omitempty"`
+	Spread bool `json:"spread,omitempty"`
+	Stop   int  `json:"stop,omitempty"` // foreach: callback returns false at the Stop-th pair (0 = never)
+	Idx    int  `json:"idx"`            // which of the two sibling indexes on the shared datastore
 }
 
 type Case struct {
@@ -77,19 +82,91 @@ func genBytes(t *rapid.T, label string, used [][]byte) []byte {
 	}
 }
 
+// suffix(i), i >= 1: big-endian bytes of i without leading zeros.
+func suffix(i int) []byte {
+	var b []byte
+	for ; i > 0; i >>= 8 {
+		b = append([]byte{byte(i)}, b...)
+	}
+	return b
+}
+
+// addnPair is the i-th (1-based) pair added by an addn op.
+func addnPair(op Op, i int) (key, val []byte) {
+	key, val = append([]byte{}, op.Key...), append([]byte{}, op.Val...)
+	if op.Spread {
+		return append(key, suffix(i)...), val
+	}
+	return key, append(val, suffix(i)...)
+}
+
+// Sizes of one bulk addition: around powers of two and round numbers (where an implementation
+// that works in batches, pages or size classes would change behaviour), small, and a few large.
+var bulkSizes = []int{4, 8, 10, 16, 20, 32, 50, 64, 100, 128}
+
+func genBulkN(t *rapid.T) int {
+	switch rapid.IntRange(0, 9).Draw(t, "bulk_class") {
+	case 0, 1, 2, 3, 4, 5:
+		return rapid.SampledFrom(bulkSizes).Draw(t, "bulk_size") + rapid.IntRange(-1, 1).Draw(t, "bulk_off")
+	case 6, 7, 8:
+		return rapid.IntRange(1, 80).Draw(t, "bulk_n")
+	default:
+		return rapid.IntRange(81, kit.Scale(200, 1100)).Draw(t, "bulk_big")
+	}
+}
+
+var plainKinds = []string{"add", "add", "add", "add", "add", "del", "del", "delkey", "delkey", "delall", "search", "search", "hasvalue", "hasany", "foreach", "foreach"}
+
+// In a bulk-shaped case (about 1 in 20) some ops add many pairs at once - many values under one key,
+// or one value under many keys - and the bulk deletes are frequent and aimed at those keys, so
+// that DeleteKey / DeleteAll / Search / ForEach meet keys and indexes with tens to hundreds of
+// entries. The other cases keep the small mixed histories.
+var bulkKinds = []string{"addn", "addn", "add", "add", "add", "del", "delkey", "delkey", "delkey", "delall!", "delall!", "search", "search", "hasvalue", "hasany", "foreach", "foreach"}
+
 func gen(t *rapid.T) Case {
 	var c Case
 	var used [][]byte
 	var added [][2][]byte // pairs added so far (generator-side; may have been deleted again)
+	var bulkKeys [][]byte // keys that got many values from an addn
 	n := rapid.IntRange(1, 40).Draw(t, "nops")
-	kinds := []string{"add", "add", "add", "add", "add", "del", "del", "delkey", "delkey", "delall", "search", "search", "hasvalue", "hasany", "foreach", "foreach"}
+	kinds := plainKinds
+	if rapid.IntRange(0, 9).Draw(t, "shape") == 5 { // not 0: rapid favours the ends of a range; observed share ~5 %
+		kinds = bulkKinds
+	}
 	for i := 0; i < n; i++ {
 		op := Op{Kind: rapid.SampledFrom(kinds).Draw(t, "kind")}
 		op.Idx = 0
 		if rapid.IntRange(0, 4).Draw(t, "idx") == 0 {
 			op.Idx = 1
 		}
+		if op.Kind == "delkey" && len(bulkKeys) > 0 && rapid.Bool().Draw(t, "bulkkey") {
+			op.Key = append([]byte{}, rapid.SampledFrom(bulkKeys).Draw(t, "bkey")...)
+			used = append(used, op.Key)
+			c.Ops = append(c.Ops, op)
+			continue
+		}
 		switch op.Kind {
+		case "delall!":
+			op.Kind = "delall"
+		case "addn":
+			op.Key = genBytes(t, "key", used)
+			op.Val = genBytes(t, "val", used)
+			if len(op.Key) == 0 {
+				op.Key = []byte("abc")
+			}
+			if len(op.Val) == 0 {
+				op.Val = []byte("abc")
+			}
+			op.N = genBulkN(t)
+			op.Spread = rapid.IntRange(0, 2).Draw(t, "spread") == 0
+			// later ops can aim at the first, the last and one more of the added pairs
+			for _, j := range []int{1, rapid.IntRange(1, op.N).Draw(t, "pick"), op.N} {
+				k, v := addnPair(op, j)
+				added = append(added, [2][]byte{k, v})
+			}
+			if !op.Spread {
+				bulkKeys = append(bulkKeys, op.Key)
+			}
 		case "add", "del", "hasvalue":
 			if op.Kind != "add" && len(added) > 0 && rapid.IntRange(0, 2).Draw(t, "existing") != 0 {
 				// aim at a pair that was added before
@@ -159,6 +236,16 @@ func (m multimap) total() int {
 		n += len(vs)
 	}
 	return n
+}
+
+// sizeClass buckets the number of pairs removed by one bulk delete (evidence histogram).
+func sizeClass(n int) string {
+	for _, b := range []int{4, 16, 64, 256} {
+		if n <= b {
+			return fmt.Sprintf("<=%d", b)
+		}
+	}
+	return ">256"
 }
 
 func eqStrs(a, b []string) bool {
@@ -307,6 +394,38 @@ func run(c Case) kit.Result {
 				m[key] = map[string]bool{}
 			}
 			m[key][val] = true
+		case "addn":
+			if op.N < 1 || op.N > 5000 {
+				return kit.Result{Classes: []string{"invalid-case"}}
+			}
+			for j := 1; j <= op.N; j++ {
+				kb, vb := addnPair(op, j)
+				k, v := string(kb), string(vb)
+				err := x.Add(ctx, k, v)
+				if k == "" || v == "" {
+					want := dsindex.ErrEmptyKey
+					if k != "" {
+						want = dsindex.ErrEmptyValue
+					}
+					if !errors.Is(err, want) {
+						return kit.Fail("%s: Add #%d (key %x, val %x): got error %v, want %v", when, j, k, v, err, want)
+					}
+					continue
+				}
+				if err != nil {
+					return kit.Fail("%s: Add #%d (key %x, val %x): %v", when, j, k, v, err)
+				}
+				if m[k] == nil {
+					m[k] = map[string]bool{}
+				}
+				m[k][v] = true
+				// Search/HasAny of the first, middle and last key are audited from now on;
+				// the others only through the complete enumeration
+				if j == 1 || j == op.N || j == (op.N+1)/2 {
+					universe[op.Idx][k] = true
+				}
+			}
+			classes["addn"] = true
 		case "del":
 			err := x.Delete(ctx, key, val)
 			if key == "" || val == "" {
@@ -343,6 +462,7 @@ func run(c Case) kit.Result {
 			}
 			if n > 0 {
 				classes["delkey-present"] = true
+				classes["delkey-size:"+sizeClass(n)] = true
 			}
 			delete(m, key)
 		case "delall":
@@ -357,6 +477,9 @@ func run(c Case) kit.Result {
 				delete(m, k)
 			}
 			classes["delall"] = true
+			if n > 0 {
+				classes["delall-size:"+sizeClass(n)] = true
+			}
 		case "search":
 			vals, err := x.Search(ctx, key)
 			if key == "" {
@@ -452,7 +575,7 @@ func run(c Case) kit.Result {
 
 var spec = kit.Spec[Case]{
 	Prop: "C24", Name: "main",
-	Rule:  "1..40 Add/Delete/DeleteKey/DeleteAll/Search/HasValue/HasAny/ForEach(key|all, early stop) calls on two sibling dsindex indexes over one map datastore; keys and values are arbitrary byte strings from prefix families (3-byte aligned so base64url encodings are string prefixes), '/' and NUL bytes, strings that look like encoded keys, extensions/truncations of strings already used, empty (documented errors); every result and, after every call, full enumeration + Search/HasAny of every key ever named are compared with a multimap model; non-trivial = a Search/DeleteKey/HasAny/ForEach on a key while another live key is a proper byte-prefix extension of it (or it extends a live key)",
+	Rule:  "1..40 Add/AddN/Delete/DeleteKey/DeleteAll/Search/HasValue/HasAny/ForEach(key|all, early stop) calls on two sibling dsindex indexes over one map datastore; keys and values are arbitrary byte strings from prefix families (3-byte aligned so base64url encodings are string prefixes), '/' and NUL bytes, strings that look like encoded keys, extensions/truncations of strings already used, empty (documented errors); about 1 case in 20 is bulk-shaped: AddN ops add 1..200 (thorough 1100) pairs at once (sizes around powers of two and round numbers +-1) as many values of one key or one value of many keys, with suffixes that are prefix-related, and DeleteKey/DeleteAll are frequent and aimed at those keys; every result and, after every call, full enumeration + Search/HasAny of every key ever named are compared with a multimap model; non-trivial = a Search/DeleteKey/HasAny/ForEach on a key while another live key is a proper byte-prefix extension of it (or it extends a live key)",
 	Quick: 4000, Thorough: 20000,
 	Gen: gen, Run: run,
 }
